@@ -22,7 +22,7 @@ SPEC = {
     "search_seeds": 2,
     "side_keys": [],
     "trusted_base": [
-        "per-operation verdict bits handed to the model (v_wf: hard rules apart from 'inputs unspent', v_soft: soft rules under the operation's parameter set, user_ok, hdr_ok of a block) are computed by the harness at the node's head with the transaction package directly, with the inputs' outputs taken from the harness's table of every output ever created — transaction / block-header validation itself is C09/C11/C04",
+        "per-operation verdict bits handed to the model (v_wf: SINGLE-transaction hard rules apart from 'inputs unspent' — used by injection, Refresh, RemoveInvalid; v_blk: the weaker BLOCK-transaction hard rules — used by ExecBlock only; both are computed for every verdict and the side file counts where they differ (outputs with hours near 2^64 whose coin hours overflow after a block, output-hour sums that wrap); v_soft: soft rules under the operation's parameter set, user_ok, hdr_ok of a block) are computed by the harness at the node's head with the transaction package directly, with the inputs' outputs taken from the harness's table of every output ever created — transaction / block-header validation itself is C09/C11/C04",
         "whether a transaction's inputs are unspent is computed by the MODEL from its own unspent set and compared with the node's answer on every injected / block transaction",
         "harness id tables: output ids are small integers, transaction hashes are represented by their first 8 bytes (the harness aborts if two hashes of a history share them)",
         "test hook src/visor/verif_c05.go (build tag verif) used on the PUBLISHER node only, to make blocks at chosen times; the node under test is driven through its exported API",
